@@ -1036,11 +1036,11 @@ fn client(t: usize, kind: Kind, api: Box<dyn Api>, script: &[SOp], sh: &Shared, 
                 match r {
                     Ok(()) => {
                         if kind == Kind::Barrier {
-                            if touched.insert(k) {
-                                expect.insert(k, None);
-                            } else {
-                                expect.remove(&k);
-                            }
+                            // a remove that returned Ok is ordered after everything this thread
+                            // queued for the key before: whatever happened earlier, once the
+                            // barrier has passed the key is gone
+                            touched.insert(k);
+                            expect.insert(k, None);
                         }
                     }
                     Err(_) => {
